@@ -72,7 +72,7 @@ Fixpoint rtree_of_expr (e : expr) (off : nat) : rtree :=
   | EUn o x =>
       if is_prefix o then RPre (hdef e) off (rtree_of_expr x (off + 2))
       else RSuf (hdef e) (off + ntoks x + 1) (rtree_of_expr x off)
-  | EGroup x => RGroup off (rtree_of_expr x (off + 1))
+  | EGroup x => RGroup BRound off (rtree_of_expr x (off + 1))
   | EList Space l r =>
       RBin D_List None (rtree_of_expr l off) (rtree_of_expr r (off + ntoks l + 1))
   | EBin _ l r | EAnd l r | EOr l r | EList Comma l r | ECond _ l r | EElse l r =>
@@ -87,7 +87,7 @@ Fixpoint eitems (e : expr) (off : nat) : list item :=
   | EUn o x =>
       if is_prefix o then IPrefix (hdef e) off :: eitems x (off + 2)
       else eitems x off ++ [ISuffix (hdef e) (off + ntoks x + 1)]
-  | EGroup x => IOpen off :: eitems x (off + 1) ++ [IClose (off + 1 + ntoks x)]
+  | EGroup x => IOpen BRound off :: eitems x (off + 1) ++ [IClose BRound (off + 1 + ntoks x)]
   | EList Space l r => eitems l off ++ IBinary D_List None :: eitems r (off + ntoks l + 1)
   | EBin _ l r | EAnd l r | EOr l r | EList Comma l r | ECond _ l r | EElse l r =>
       eitems l off ++ IBinary (hdef e) (Some (off + ntoks l + 1)) :: eitems r (off + ntoks l + 3)
@@ -112,7 +112,7 @@ Fixpoint rep (e : expr) (off : nat) (t : ntree) : Prop :=
       else
         match t with NSuf _ d k a => d = hdef e /\ k = off + ntoks x + 1 /\ rep x off a | _ => False end
   | EGroup x =>
-      match t with NGroup _ k a => k = off /\ rep x (off + 1) a | _ => False end
+      match t with NGroup BRound _ k a => k = off /\ rep x (off + 1) a | _ => False end
   | EList Space l r =>
       match t with
       | NBin _ d k tl tr => d = D_List /\ k = None /\ rep l off tl /\ rep r (off + ntoks l + 1) tr
